@@ -1,4 +1,6 @@
 # property id -> (module, class)
 REGISTRY = {
+    "C14": ("envhist", "EnvHist"),
+    "C16": ("conshist", "ConsHist"),
     "C36": ("statehist", "StateHist"),
 }
